@@ -862,6 +862,7 @@ struct Engine {
         try { at0 = EI<E>::val(v.at(static_cast<SizeT>(i))); } catch (const std::out_of_range &) { at_threw = true; }
       }
       try { (void)cv.at(static_cast<SizeT>(bad)); } catch (const std::out_of_range &) { at_bad_threw = true; }
+      if (at_bad_threw) { at_bad_threw = false; try { (void)v.at(static_cast<SizeT>(bad)); } catch (const std::out_of_range &) { at_bad_threw = true; } }
       for (auto it = cv.begin(); it != cv.end(); ++it) ++itcount;
       for (auto it = cv.rbegin(); it != cv.rend(); ++it) ++ritcount;
     });
